@@ -1018,6 +1018,41 @@ class Analysis:
                 "outside_quantifier": "the property speaks of connects that reach both hook points"}
 
 
+def kernel_side_port_reuse(c, label="c07k"):
+    """The kernel half of 'a connection never inherits another's identity' (used by C07): the directed port-reuse family
+    (a record outlives its connection, the port is handed to another caller) on the real C program, judged by EbpfTrace.
+    Returns the merged findings whose kind is a record that is not the connection's own."""
+    sim_exe = build_sim()
+    codec = Codec(build_codec())
+    an = Analysis(c, sim_exe, codec, [], c.seed, False, label=label)
+    try:
+        if not an.layout():
+            return [f for f in merge(an.findings)]
+        rnd = random.Random(c.seed * 31 + 7)
+        directed = leftover_runs(rnd, codec.hello, an.cap)
+        rows, idx, runs = [], [], [st for _, st, _ in directed]
+        for steps in runs:
+            idx.append(len(rows))
+            rows.append({"e": "reset"})
+            for r, info in an.m.run(steps):
+                rows.append(r)
+        ok, why, res = validate_trace(c, "EbpfTrace", "EbpfTrace.cfg", rows, label + "_L", count=len(runs), timeout=600)
+        c.extra["kernel_side_port_reuse_runs"] = len(runs)
+        if ok:
+            return []
+        if why.startswith("trace not matched"):
+            raise util.ToolError("harness produced a trace EbpfTrace cannot follow (%s): %s" % (label, why))
+        d = diagnose(rows)
+        if d is None:
+            raise util.ToolError("oracle disagreement: TLC rejects %s (%s) but the python diagnosis finds nothing" % (label, why))
+        k = max(i for i in range(len(idx)) if idx[i] <= d["row"])
+        f = an.judge(runs[k][:d["row"] - idx[k]], label + "_w", "port-reuse run %s" % directed[k][0])
+        return merge(an.findings + ([f] if f else []))
+    finally:
+        an.close()
+        codec.close()
+
+
 def merge(findings):
     """one violation per structural kind; sites and counts listed inside"""
     out = {}
